@@ -55,6 +55,16 @@ def gen_schedule(rng, i, tier):
     if rng.random() < 0.15 and base + 'config/views.rules' not in files:
         # a views file that settings does not mention
         files[base + 'config/views.rules'] = '[Everything]\nfilter: total > 0\n'
+    # every config file independently present or not: files that settings does not (yet) reference
+    rulesp = base + 'config/merchants.rules'
+    if rulesp not in files and rng.random() < 0.3:
+        files[rulesp] = rng.choice(['# starter - no rules yet\n',
+                                    '[Mine]\nmatch: contains("MINE")\ncategory: Personal\nsubcategory: Own\n',
+                                    '[Netflix]\nmatch: contains("NETFLIX")\ncategory: Subscriptions\nsubcategory: Streaming\ntags: fun\n'])
+    if rng.random() < 0.1:
+        files[base + 'config/merchants.rules.bak'] = '# an older copy of my rules\n[Old]\nmatch: contains("OLD")\ncategory: Old\n'
+    if rng.random() < 0.1:
+        files[base + 'config/.tally-schema'] = '1\n'
     snap = {r: c.encode('utf-8') for r, c in files.items()}
     snap['elsewhere/'] = None
     cfg = base + 'config'
